@@ -10,7 +10,7 @@ WEIGHTS = dict(DeleteShadow=8, Shading=3, ShadowOf=2, EditMembers=3, Group=1, Un
 
 def run(tier, seed):
     rng = random.Random(seed * 198491317 + 4)
-    mcs = [core.mc("MC_Acl", "MC_Acl" if tier == "quick" else "MC_Acl_4")]
+    mcs = [core.mc("MC_Acl", "MC_Acl" if tier == "quick" else "MC_Acl_4"), core.mc("MC_Acl", "MC_Acl_deep")]
     n = 1800 if tier == "quick" else 15000
     jobs = [aclhist.make_history(rng, t, WEIGHTS, nops=rng.randint(1, 5)) for t in range(1, n + 1)]
     aclhist.fill_permutations(rng, jobs)
